@@ -574,6 +574,36 @@ func TestC16(t *testing.T) {
 					mix[i] = c16Calls[s.Intn(3)] // at least two verifications
 				}
 			}
+			// bad siblings of the shared quote arrive at the same service: the attestation key replaced and the body re-signed
+			// (fails at the QE report data), one body bit changed (fails at the signature), one QE report bit changed.
+			// They are verified before the concurrent phase (rounds 0,1 of four) and during it (rounds 2,3), each with
+			// its own options; what happens to them must not disturb the verifications of the shared quote.
+			var siblings [][]byte
+			{
+				q := w.Q.Clone()
+				k := gen.DeriveKey("c16/other-attestation-key")
+				copy(q.AttKey[:], k.PubRaw())
+				gen.SignBody(q, k)
+				siblings = append(siblings, q.Encode())
+				b := append([]byte{}, w.Raw...)
+				b[48+s.Intn(584)] ^= 1 << uint(s.Intn(8))
+				siblings = append(siblings, b)
+				b = append([]byte{}, w.Raw...)
+				b[770+s.Intn(384)] ^= 1 << uint(s.Intn(8))
+				siblings = append(siblings, b)
+			}
+			runSibling := func(k int) string {
+				o := w.Options(gen.LvlBase, w.NewGetter(), nil)
+				v := gen.Call(func() error { return verify.RawTdxQuote(siblings[k], o) })
+				return v.Short()
+			}
+			sibSolo := make([]string, len(siblings))
+			sibGot := make([]string, len(siblings))
+			if round%4 < 2 {
+				for k := range siblings {
+					sibSolo[k] = runSibling(k)
+				}
+			}
 			useSecond := func(i int) bool { return w2 != nil && i%2 == 1 }
 			runOne := func(i int) string {
 				if useSecond(i) {
@@ -604,6 +634,18 @@ func TestC16(t *testing.T) {
 					}
 				}(i)
 			}
+			if round%4 >= 2 {
+				for k := range siblings {
+					wg.Add(1)
+					go func(k int) {
+						defer wg.Done()
+						<-start
+						for rep := 0; rep < 3; rep++ {
+							sibGot[k] = runSibling(k)
+						}
+					}(k)
+				}
+			}
 			close(start)
 			wg.Wait()
 			if !soloFirst {
@@ -611,7 +653,16 @@ func TestC16(t *testing.T) {
 					solo[i] = runOne(i)
 				}
 			}
-			gen.EvalN(n * 3)
+			if round%4 >= 2 {
+				for k := range siblings {
+					sibSolo[k] = runSibling(k)
+					if sibGot[k] != sibSolo[k] {
+						gen.Fail(t, gen.Violation{Key: "concurrent-verdict-differs:bad-sibling", Oracle: "concurrent calls give the same verdict as when run alone", Detail: fmt.Sprintf("source=%s goroutines=%d sibling %d of the shared quote: solo %s, concurrent %s", src, n, k, sibSolo[k], sibGot[k]), Replay: w.CaseFile(gen.LvlBase, siblings[k], nil, nil, "reject")})
+						return
+					}
+				}
+			}
+			gen.EvalN(n*3 + len(siblings)*3)
 			var names []string
 			for _, c := range mix {
 				names = append(names, c.name)
